@@ -538,6 +538,8 @@ class Interp:
                 return re.UNICODE
             if full in ('re.DOTALL', 're.S'):
                 return re.DOTALL
+            if full in SAFE_ATTR_CALLS and not (isinstance(e.value, ast.Name) and e.value.id in env):
+                return SAFE_ATTR_CALLS[full]         # a whitelisted library function used as a value (compile_ = re.compile)
             o = self.expr(e.value, env, mod) if not (isinstance(e.value, ast.Name) and e.value.id == 're') else None
             if isinstance(o, tuple) and len(o) == 2 and o[0] == '#classof' and e.attr == '__name__':
                 return o[1].name
@@ -751,7 +753,7 @@ class Interp:
             for p, a in zip([x.arg for x in lam.args.args], args):
                 env[p] = a
             return self.expr(lam.body, env, mod)
-        if callable(f) and f in SAFE_BUILTINS.values():
+        if callable(f) and (f in SAFE_BUILTINS.values() or f in SAFE_ATTR_CALLS.values()):
             return f(*self._py(args), **{k: self._py1(v) for k, v in kwargs.items()})
         if isinstance(f, type) and issubclass(f, tuple) and hasattr(f, '_fields'):
             return f(*args, **kwargs)          # a namedtuple class made by the evaluated module
